@@ -644,9 +644,17 @@ func gen(r *c.Rng, s *sys) Op {
 		o := genProv(r, "pu")
 		if id, name, ok := pickProv(); ok && r.Chance(7, 8) {
 			o.A[0] = id
-			if r.Chance(1, 2) { // keep the name
+			l, _ := s.A.LoadByProvisioner(name)
+			// clean: renaming a provisioner that has admins is the authority layer's business
+			// (it has to rebuild the admin collection, finding D18): exercised by stage authprops
+			if r.Chance(1, 2) || (clean && len(l) > 0) { // keep the name
 				o.A[1] = name
 				o.A[2] = "tok-" + name
+			}
+		}
+		if p, ok := s.P.Load(o.A[0]); ok && clean {
+			if l, _ := s.A.LoadByProvisioner(p.GetName()); len(l) > 0 {
+				o.A[1], o.A[2] = p.GetName(), "tok-"+p.GetName()
 			}
 		}
 		return o
@@ -763,7 +771,8 @@ func main() {
 	defer o.Close()
 	emit := func(k *Case) {
 		if *mode == "props" {
-			o.Case(k.line(), k.runProps()+"\tok")
+			// oracle stage: the line is not fed to the driver; its first field marks the mode for -replay
+			o.Case("props-"+k.line(), k.runProps()+"\tok")
 			return
 		}
 		o.Case(k.line(), k.runColl())
@@ -776,6 +785,10 @@ func main() {
 			os.Exit(2)
 		}
 		for _, l := range strings.Split(string(data), "\n") {
+			if strings.HasPrefix(l, "props-") {
+				*mode = "props"
+				clean = true
+			}
 			i := strings.Index(l, "case=x")
 			if i < 0 {
 				continue
@@ -795,7 +808,10 @@ func main() {
 		}
 		return
 	}
-	for _, k := range corner() {
+	for i, k := range corner() {
+		if clean && i == 2 {
+			continue // provisioner rename with admins: the authority layer's business (stage authprops)
+		}
 		emit(k)
 	}
 	r := c.NewRng(c.Seed())
